@@ -221,6 +221,7 @@ def run(run: common.Run):
             if name is not None and name != stem + rep:
                 run.disagree(case, line, stem + rep, name, what='output file name')
     run.extra['generated_tables'] = str(common.LEAN / 'Homonim' / 'Generated.lean')
+    compare_legs(run, tmp)
 
 
 def run_api(case, eff, pair, d, src, ref):
@@ -259,3 +260,137 @@ def run_api(case, eff, pair, d, src, ref):
                 return corr, param, rf.proc_crs.name
     except Exception as ex:
         return ex
+
+
+def compare_legs(run, tmp):
+    """
+    `homonim compare` with generated options, and the comparison chained to `homonim fuse --compare [FILE]` (whose settings
+    may come from flags or the configuration file): every RasterCompare.process call the command makes is recorded (wrapper
+    on the class, harness side) and must equal the API call with the effective settings on the same files: same constructor
+    arguments, same process arguments, same statistics; `--output` JSON must hold the same numbers.
+    """
+    import json as _json
+    from click.testing import CliRunner
+    from homonim import cli, RasterCompare
+    from homonim.enums import ProcCrs
+    calls = []
+    orig_process, orig_init = RasterCompare.process, RasterCompare.__init__
+
+    def rec_init(self, src_filename, ref_filename, *a, **kw):
+        self._verif_ctor = dict(src=str(src_filename), ref=str(ref_filename), args=a, kw=dict(kw))
+        return orig_init(self, src_filename, ref_filename, *a, **kw)
+
+    def rec_process(self, *a, **kw):
+        res = orig_process(self, *a, **kw)
+        calls.append(dict(ctor=self._verif_ctor, proc_crs=self.proc_crs.value, src_bands=tuple(self.src_bands),
+                          ref_bands=tuple(self.ref_bands), args=a, kw=dict(kw), result=res))
+        return res
+
+    def close(x, y):
+        if isinstance(x, dict):
+            return isinstance(y, dict) and list(x) == list(y) and all(close(x[k], y[k]) for k in x)
+        if isinstance(x, float) or isinstance(y, float):
+            return (np.isnan(x) and np.isnan(y)) or abs(x - y) <= 1e-12 * max(1.0, abs(x))
+        return x == y
+
+    n = 10 if run.quick() else 120
+    for i in run.indices(n):
+        rng = run.rng(f'cmp{i}')
+        src, ref = rasters.pair_geometry(rng, 'dyadic', 'auto', max_src=22, margin=(1, 2))
+        while src.w < 10 or src.h < 10 or src.px == ref.px:
+            src, ref = rasters.pair_geometry(rng, 'dyadic', 'auto', max_src=22, margin=(1, 2))
+        nb = rng.choice([1, 2, 3])
+        s = np.array([[[rng.randint(20, 200) for _ in range(src.w)] for _ in range(src.h)] for _ in range(nb)], float)
+        r = np.array([[[rng.randint(30, 150) for _ in range(ref.w)] for _ in range(ref.h)] for _ in range(nb)], float)
+        r2 = np.array([[[rng.randint(30, 150) for _ in range(ref.w)] for _ in range(ref.h)] for _ in range(nb)], float)
+        d = tmp / f'c19cmp_{i}'
+        (d / 'out').mkdir(parents=True)
+        pair = fusion.write_pair(d, 'in', src, ref, s, r, None, None)
+        other = fusion.write_pair(d, 'oth', src, ref, s, r2, None, None).ref_path
+        opt = dict(threads=rng.choice([1, 2]), max_block_mem=rng.choice([100.0, 50.0]),
+                   downsampling=rng.choice(['average', 'bilinear', 'cubic', 'average']),
+                   upsampling=rng.choice(['cubic_spline', 'bilinear', 'nearest', 'cubic_spline']),
+                   proc_crs=rng.choice(['auto', 'ref', 'src']))
+        kind = ['compare', 'fuse-flag', 'fuse-file', 'fuse-conf'][i % 4]
+        flags = ['-t', str(opt['threads']), '-mbm', repr(opt['max_block_mem']), '-ds', opt['downsampling'], '-us', opt['upsampling'],
+                 '-pc', opt['proc_crs']]
+        case = dict(i=500_000 + i, op=kind, options=opt, nb=nb)
+        out_json = d / 'cmp.json'
+        if kind == 'compare':
+            bands = []
+            sb = rb = None
+            if nb > 1 and rng.random() < 0.5:
+                kk = rng.randint(1, nb)
+                sb, rb = rng.sample(range(1, nb + 1), kk), rng.sample(range(1, nb + 1), kk)
+                for b in sb:
+                    bands += ['-sb', str(b)]
+                for b in rb:
+                    bands += ['-rb', str(b)]
+                bands += ['-f']
+            args = ['compare', str(pair.src_path), str(pair.ref_path), '--output', str(out_json)] + flags + bands
+            expect = [dict(src=str(pair.src_path), ref=str(pair.ref_path), sb=sb, rb=rb, force=bool(sb))]
+        else:
+            cmp_ref = pair.ref_path if kind != 'fuse-file' else other
+            args = ['fuse', str(pair.src_path), str(pair.ref_path), '-od', str(d / 'out'), '-m', 'gain', '-k', '3', '3', '-nbo']
+            if kind == 'fuse-conf':
+                cf = d / 'conf.yaml'
+                cf.write_text(yaml.safe_dump({k: v for k, v in opt.items()}))
+                args += ['-c', str(cf)]
+            else:
+                args += flags
+            args += ['--compare'] + ([str(other)] if kind == 'fuse-file' else [])
+            if kind != 'fuse-file':
+                # `--compare` without a value must not swallow the next token: keep it last
+                pass
+            expect = [dict(src=str(pair.src_path), ref=str(cmp_ref), sb=None, rb=None, force=False), None]
+        del calls[:]
+        RasterCompare.process, RasterCompare.__init__ = rec_process, rec_init
+        try:
+            with warnings.catch_warnings():
+                warnings.simplefilter('ignore')
+                res = CliRunner().invoke(cli.cli, args)
+        finally:
+            RasterCompare.process, RasterCompare.__init__ = orig_process, orig_init
+        run.evaluations += 1
+        run.lines_compared += 1
+        run.hist[f'compare leg: {kind}'] += 1
+        run.nontrivial.add(('cmp', i))
+        if res.exit_code != 0:
+            run.fail(case, f'`homonim {" ".join(args[:1])}` exited {res.exit_code}: {str(res.exception)[:120]} | args {args}',
+                     signature=dict(kind='cli-error'))
+            continue
+        if kind != 'compare':
+            corr = sorted((d / 'out').glob('*.tif'))
+            expect[1] = dict(src=str(corr[0]) if corr else None, ref=expect[0]['ref'], sb=None, rb=None, force=False)
+        if len(calls) != len(expect):
+            run.fail(case, f'the command made {len(calls)} comparisons, expected {len(expect)}', signature=dict(kind='cli-compare'))
+            continue
+        bad = None
+        recorded = [dict(c) for c in calls]
+        for c, e in zip(recorded, expect):
+            if pathlib.Path(c['ctor']['src']).name != pathlib.Path(e['src']).name or pathlib.Path(c['ctor']['ref']).name != pathlib.Path(e['ref']).name:
+                bad = f"compared {c['ctor']['src']} with {c['ctor']['ref']}, expected {e['src']} with {e['ref']}"
+                break
+            # the API call with the same settings
+            with warnings.catch_warnings():
+                warnings.simplefilter('ignore')
+                with RasterCompare(e['src'], e['ref'], proc_crs=ProcCrs(opt['proc_crs']), src_bands=e['sb'], ref_bands=e['rb'],
+                                   force=e['force']) as rc:
+                    api = rc.process(threads=opt['threads'], max_block_mem=opt['max_block_mem'], downsampling=opt['downsampling'],
+                                     upsampling=opt['upsampling'])
+                    api_meta = (rc.proc_crs.value, tuple(rc.src_bands), tuple(rc.ref_bands))
+            if (c['proc_crs'], c['src_bands'], c['ref_bands']) != api_meta:
+                bad = f"the command compared on grid/bands {(c['proc_crs'], c['src_bands'], c['ref_bands'])}, the API call with the same settings on {api_meta}"
+                break
+            if not close(c['result'], api):
+                bad = (f"statistics of the command-line comparison of {pathlib.Path(e['src']).name} differ from the API call with "
+                       f"the same settings: Mean {c['result'].get('Mean')} vs {api.get('Mean')} (process kwargs seen: {c['kw']})")
+                break
+            if kind == 'compare':
+                js = _json.loads(out_json.read_text())
+                got = js.get(str(pair.src_path))
+                if not close(_json.loads(_json.dumps(api)), got):
+                    bad = '--output JSON does not hold the API statistics'
+                    break
+        if bad:
+            run.fail(case, bad + f' | args {args[1:]}', signature=dict(kind='cli-compare'))
